@@ -153,6 +153,24 @@ def _r1(run, ev):
     if others:
         run.violated("C16.R1", f, final[others[0]][1].node, "the reflection also rewrites %s: only CD and CRPIX2 may change" % others, kind="extra-keys")
     need_del = {"CDELT1", "CDELT2", "PC1_1", "PC1_2", "PC2_1", "PC2_2"}
+    # nothing else may be taken out of the header: every other keyword to_header() wrote (LONPOLE / LATPOLE, PVi_m, RADESYS,
+    # EQUINOX, ...) is part of the sky mapping or harmless; a reflection that drops one moves pixels on the sky
+    if deleted - need_del:
+        run.violated("C16.R1", f, None, "the reflection removes %s from the header: only the CDELT/PC keywords (replaced by the CD matrix) may go; a dropped "
+                     "keyword of the celestial frame (e.g. LONPOLE, LATPOLE, PVi_m) changes where pixels fall on the sky" % sorted(deleted - need_del), kind="extra-deleted")
+    for e in r.events:
+        if e.kind == "del" and e.term[0] == "sub" and e.term[1] == h and e.term[2][0] != "const":
+            src = e.term[2][1] if e.term[2][0] == "elem" else None
+            literal = src is not None and ((src[0] == "call" and src[1][0] == "attr" and src[1][2] == "split" and src[1][1][0] == "const") or src[0] in ("list", "tuple"))
+            if literal:
+                continue
+            from_header = src is not None and h in _all_subterms(src)
+            if from_header:
+                run.violated("C16.R1", f, e.node, "the reflection deletes keywords chosen from the header's own key list (%s): everything outside a whitelist is dropped, "
+                             "and no whitelist names all keywords of the celestial frame (LONPOLE, LATPOLE, PVi_m, ...): pixels move on the sky for such WCS"
+                             % show(e.term[2])[:60], kind="extra-deleted")
+            else:
+                run.undecided("C16.R1", f, e.node, "the reflection deletes header[%s]: cannot tell which keywords go" % show(e.term[2])[:60], kind="deleted-keys")
     if not need_del <= deleted:
         run.violated("C16.R1", f, None, "the CDELT/PC keywords %s stay in the header next to the CD matrix: astropy would combine both descriptions" % sorted(need_del - deleted),
                      kind="stale-keywords")
@@ -314,3 +332,16 @@ def _r4(run):
                      "operations on objects sharing one WCS instance see each other's edits" % (f.short, msg), kind="shared-header-state")
     else:
         run.holds("C16.R4", project.fn(chain[0]), None, "the parity helpers keep no state between calls; the edited header is wcs.to_header() of the call", functions=sorted(seen))
+
+
+def _all_subterms(t):
+    out = []
+
+    def visit(x):
+        if isinstance(x, tuple) and x:
+            out.append(x)
+            for y in x:
+                if isinstance(y, tuple):
+                    visit(y)
+    visit(t)
+    return out
